@@ -34,7 +34,9 @@ RULE = ("(writers) meshes with V in {0,1,3,4,8} vertices x M in {0,1,2,4,12} "
         "{float32, float64, integer, read-only views}, each transformed "
         "twice (the first result must not change); (scripts) GIFTI "
         "conversion x transforms x mesh-dir options, fragment-link tables "
-        "incl. 64-bit labels around 2^53 and 2^64-1. "
+        "incl. 64-bit labels around 2^53 and 2^64-1 and non-canonical label "
+        "spellings; the conversion function called three times with one "
+        "transform array. "
         "Non-trivial: M >= 1, or the byte string is not a valid mesh, or "
         "the matrix is not the identity.")
 ASSUMPTIONS = [
@@ -485,6 +487,80 @@ def _eval_gifti(col, case):
         sandbox.rm(d)
 
 
+def _eval_gifti_reuse(col):
+    """the library function behind mesh-to-precomputed called three times
+    with ONE transform array (float64 ndarray 4x4 and 3x4, float32 4x4):
+    every mesh must be placed by that transform, and the caller's array
+    must not change"""
+    import nibabel
+    from nibabel import gifti
+
+    from neuroglancer_scripts import accessor, mesh
+    from neuroglancer_scripts.scripts import mesh_to_precomputed as m2p
+    d = sandbox.fresh_dir("c17r")
+    try:
+        v, t = cube()
+        va = np.array(v, dtype=np.float32) * 0.5 + np.float32(0.1)
+        ta = np.array(t, dtype=np.int32)
+        src = os.path.join(d, "m.surf.gii")
+        nibabel.save(gifti.GiftiImage(darrays=[
+            gifti.GiftiDataArray(va, intent="NIFTI_INTENT_POINTSET",
+                                 datatype="NIFTI_TYPE_FLOAT32"),
+            gifti.GiftiDataArray(ta, intent="NIFTI_INTENT_TRIANGLE",
+                                 datatype="NIFTI_TYPE_INT32")]), src)
+        base = np.array([[0, -2, 0, 5], [1, 0, 0, -3], [0, 0, 1.5, 0.25],
+                         [0, 0, 0, 1]], dtype=np.float64)
+        for kind in ("f64-4x4", "f64-3x4", "f32-4x4"):
+            if kind == "f64-4x4":
+                tr = base.copy()
+            elif kind == "f64-3x4":
+                tr = base[:3].copy()
+            else:
+                tr = base.astype(np.float32)
+            keep = json.dumps(np.asarray(tr).tolist())
+            for k in range(3):
+                case = {"kind": "gifti-reuse", "transform_kind": kind,
+                        "call": k}
+                ds = os.path.join(d, "ds-%s-%d" % (kind, k))
+                os.makedirs(ds)
+                _write_info(ds)
+                try:
+                    with sandbox.quiet():
+                        m2p.mesh_file_to_precomputed(
+                            src, ds, mesh_name="m", coord_transform=tr)
+                    buf = accessor.get_accessor_for_url(ds).fetch_file(
+                        "mesh/m")
+                    rv, _ = mesh.read_precomputed_mesh(io.BytesIO(buf))
+                except Exception as exc:
+                    col.ev(1, 1, "gifti-bad")
+                    col.violation("C17/mesh-to-precomputed/reuse/exception/"
+                                  + type(exc).__name__, case, "a mesh",
+                                  repr(exc)[:200])
+                    continue
+                want = ((base[:3, :3] @ va.astype(np.float64).T).T
+                        + base[:3, 3]) * 1e6
+                scale = float(np.max(np.abs(want)))
+                ok = True
+                if rv.shape != want.shape or \
+                        np.max(np.abs(rv - want)) > 4e-7 * scale:
+                    ok = False
+                    col.violation("C17/mesh-to-precomputed/reuse/vertices-"
+                                  "not-in-nm", case, want.tolist()[:2],
+                                  np.asarray(rv).tolist()[:2])
+                if json.dumps(np.asarray(tr).tolist()) != keep:
+                    ok = False
+                    col.violation("C17/mesh-to-precomputed/reuse/caller-"
+                                  "transform-modified", case, keep,
+                                  json.dumps(np.asarray(tr).tolist()))
+                    tr = (base.copy() if kind == "f64-4x4" else
+                          base[:3].copy())
+                col.ev(1, 1, "gifti-ok" if ok else "gifti-bad")
+        col.sample({"kind": "gifti-reuse", "transform_kind": "f64-4x4",
+                    "call": 1})
+    finally:
+        sandbox.rm(d)
+
+
 def gifti_cases():
     out = []
     ident = [1, 0, 0, 0, 0, 1, 0, 0, 0, 0, 1, 0]
@@ -527,7 +603,9 @@ def _eval_links(col, case):
             return
         want = {}
         for label, frags in case["table"]:
-            want[str(label) + ("" if case["no_colon"] else ":0")] = frags
+            # the file is named after the label NUMBER, however the CSV
+            # spells it
+            want[str(int(label)) + ("" if case["no_colon"] else ":0")] = frags
         got = {}
         for name in os.listdir(os.path.join(ds, "mesh")):
             if name in case["existing"]:
@@ -565,6 +643,8 @@ def links_cases():
         [(2 ** 53, ["a"]), (2 ** 53 + 1, ["b"]), (2 ** 64 - 1, ["c"]),
          (2 ** 63 + 1, ["a", "b"])],
         [(10 ** 15 + 1, ["a"]), (1, ["b"]), (1 << 40, ["c"])],
+        # label cells that int() accepts but that are not canonical decimal
+        [("007", ["a"]), (" 12", ["b"]), ("+3", ["a", "b"])],
     ]
     out = []
     for t in tables:
@@ -648,6 +728,7 @@ def run_unit(u):
     elif k == "gifti":
         for case in gifti_cases():
             _eval_gifti(col, case)
+        _eval_gifti_reuse(col)
         col.sample(gifti_cases()[9])
     elif k == "links":
         for case in links_cases():
@@ -671,6 +752,11 @@ def replay(case):
                      case.get("input", "float32"))
     elif k == "gifti":
         _eval_gifti(col, case)
+    elif k == "gifti-reuse":
+        _eval_gifti_reuse(col)
+        return [r for r in col.records()
+                if r["case"].get("transform_kind") == case["transform_kind"]
+                and r["case"].get("call") == case["call"]]
     elif k == "links":
         _eval_links(col, case)
     return col.records()
